@@ -72,6 +72,9 @@ def run_impl(case, d):
         out = {}
         if case["params"].get("decoded"):
             ta.t.decode_symbol_ids()
+        if case.get("case_no", 0) % 4 == 2 and not case["params"].get("decoded"):
+            import cp_common
+            cp_common.cp_analysis_first(ta, frames, sorted(frames))        # history: another analysis of the same object first
         try:
             tdf, kdf = ta.get_gpu_kernel_breakdown(visualize=False, duration_ratio=p["k16"] / 16.0, num_kernels=p["numk"], include_memory_kernels=p["mem"])
             out["types"] = [[str(rec["kernel_type"]), float(rec["sum"]) * k, float(rec["percentage"])] for rec in tdf.to_dict("records")]
